@@ -71,8 +71,14 @@ def verdict (complete : Bool) (h : List Notif) : String :=
   else if complete && h.contains .connOpen && !h.contains .connClose then "conn-close-missing"
   else "ok"
 
+/-- the state the transitions of a history end in -/
+def endFrom : Nat → List Notif → Nat
+  | st, [] => st
+  | _, .fsm _ _ n :: rest => endFrom n rest
+  | st, _ :: rest => endFrom st rest
+
 /-- the state-machine part of the history the reactor model emits (oldest first) -/
 def ofLog (log : List Dul.Dispatch) : List Notif :=
-  (log.reverse.filter (fun d => d.action.isSome && d.next != 0)).map (fun d => .fsm d.state d.evt d.next)
+  (log.reverse.filter (fun d => d.ok)).map (fun d => .fsm d.state d.evt d.next)
 
 end PynetVerif.History
